@@ -234,6 +234,19 @@ def run(repo='/repo', tier='quick'):
             else:
                 res.holds('C09.e', dn + ':counts-once', '%d accepting paths each call %s(conn, len) exactly once' % (npaths, track), fn.loc)
 
+        # a call that leaves before the chunk is counted reports ERROR, STOP or CLOSED - never a state that accepts the bytes
+        nb4 = 0
+        badr = None
+        for atoms, events, end in P.enum_paths(fn, (fn.entry, -1), stop=lambda b_, i_, s_: any(c.get('callee') == track for c in nodes(s_, lambda y: y.get('k') == 'call'))):
+            if end[0] != 'return':
+                continue
+            nb4 += 1
+            rv = lit_name(P.ret_value(end[3]))
+            if rv not in ('HTP_STREAM_ERROR', 'HTP_STREAM_STOP', 'HTP_STREAM_CLOSED'):
+                badr = (end[3], rv or S(P.ret_value(end[3])))
+        res.check(badr is None and nb4 > 0, 'C09.e', dn + ':uncounted-exits', 'the %d exits in front of %s report ERROR, STOP or CLOSED' % (nb4, track),
+                  '%s returns %s before %s() has counted the chunk: the bytes of that call were offered (and, for TUNNEL/DATA, accepted) but never reach the connection\'s byte counter' % (dn, badr and badr[1], track), badr[0]['loc'] if badr else fn.loc)
+
     c09f(db, res)
     c09d(db, res)
     if tier == 'thorough':
